@@ -11,6 +11,11 @@ use cedar_policy_core::ast;
 use serde_json::{json, Map, Value as J};
 use std::collections::{BTreeMap, BTreeSet, HashMap};
 
+/// the id as given (Display escapes quotes, backslashes and control characters)
+fn raw<T: AsRef<str> + ?Sized>(x: &T) -> String {
+    AsRef::<str>::as_ref(x).to_string()
+}
+
 fn body_with_id(world: &J, kind: &str, idx: u64) -> R<J> {
     let arr = world[kind].as_array().ok_or("world bodies")?;
     arr.get((idx as usize).wrapping_sub(1)).cloned().ok_or_else(|| format!("no body {kind}[{idx}]"))
@@ -46,7 +51,7 @@ fn project_pub(ps: &PolicySet, probe: &BTreeSet<String>) -> J {
     let mut tm = Map::new();
     let mut dup_ids = false;
     for p in ps.policies() {
-        let id = p.id().to_string();
+        let id = raw(p.id());
         if p.is_static() {
             dup_ids |= st.insert(id, json!([tag_of(p.annotation("body")), eff(p.effect())])).is_some();
         } else {
@@ -55,7 +60,7 @@ fn project_pub(ps: &PolicySet, probe: &BTreeSet<String>) -> J {
                 let k = if s == SlotId::principal() { "principal" } else { "resource" };
                 env.insert(k.to_string(), uid_to_wire(u.as_ref()));
             }
-            let tid = p.template_id().map(|t| t.to_string()).unwrap_or_default();
+            let tid = p.template_id().map(|t| raw(t)).unwrap_or_default();
             dup_ids |= ln
                 .insert(id, json!({"tid": tid, "env": env, "body": tag_of(p.annotation("body")), "effect": eff(p.effect())}))
                 .is_some();
@@ -63,12 +68,12 @@ fn project_pub(ps: &PolicySet, probe: &BTreeSet<String>) -> J {
     }
     let mut linked_by = Map::new();
     for t in ps.templates() {
-        let id = t.id().to_string();
+        let id = raw(t.id());
         dup_ids |= tm.insert(id.clone(), json!([tag_of(t.annotation("body")), eff(t.effect())])).is_some();
         let links: Option<BTreeSet<String>> = ps
             .get_linked_policies(t.id().clone())
             .ok()
-            .map(|it| it.map(|x| x.to_string()).collect());
+            .map(|it| it.map(|x| raw(x)).collect());
         linked_by.insert(id, match links { Some(l) => json!(l), None => json!(["ERR"]) });
     }
     let mut lookups = Map::new();
@@ -90,19 +95,19 @@ fn project_ast(ps: &PolicySet) -> J {
     let mut ln = BTreeMap::new();
     for p in a.policies() {
         if p.is_static() {
-            st.insert(p.id().to_string());
+            st.insert(raw(p.id()));
         } else {
-            ln.insert(p.id().to_string(), p.template().id().to_string());
+            ln.insert(raw(p.id()), raw(p.template().id()));
         }
     }
-    let tm: BTreeSet<String> = a.templates().map(|t| t.id().to_string()).collect();
+    let tm: BTreeSet<String> = a.templates().map(|t| raw(t.id())).collect();
     let mut linked_by = BTreeMap::new();
     for t in a.templates() {
         let links: BTreeSet<String> = a
             .get_linked_policies(t.id())
-            .map(|it| it.map(|x| x.to_string()).collect())
+            .map(|it| it.map(|x| raw(x)).collect())
             .unwrap_or_default();
-        linked_by.insert(t.id().to_string(), links);
+        linked_by.insert(raw(t.id()), links);
     }
     json!({"st": st, "tm": tm, "ln": ln, "linkedBy": linked_by})
 }
@@ -182,7 +187,7 @@ pub fn run(case: &J) -> R<J> {
                 let other = build_state(world, &op[1])?;
                 match ps.merge(&other, op[2].as_bool().ok_or("rename flag")?) {
                     Ok(r) => {
-                        let m: BTreeMap<String, String> = r.iter().map(|(a, b)| (a.to_string(), b.to_string())).collect();
+                        let m: BTreeMap<String, String> = r.iter().map(|(a, b)| (raw(a), raw(b))).collect();
                         for v in m.values() {
                             probe.insert(v.clone());
                         }
@@ -199,7 +204,7 @@ pub fn run(case: &J) -> R<J> {
         // the authorizer must consider exactly the policies of the (abstract) post state
         let mut back = HashMap::new();
         for p in ps.policies() {
-            back.insert(p.id().to_string(), p.id().to_string());
+            back.insert(raw(p.id()), raw(p.id()));
         }
         let battery: Vec<J> = requests
             .iter()
